@@ -244,5 +244,8 @@ func RunTimed(t *testing.T, mk func() World, seed uint64) (res RunResult) {
 		res.Violations = s.Violations
 	}
 	res.Hash = fmt.Sprintf("timed-%d", seed)
+	if len(res.Violations) > 0 && strings.Contains(res.Harness, "deadlock") && strings.Contains(res.Harness, "bubble") {
+		res.Harness = "" // as in RunOne: the recorded violation is the verdict, the leaked goroutines its consequence
+	}
 	return res
 }
